@@ -99,7 +99,7 @@ def spec_props(upem, F, h, mode, cfg, w, x_off, top, bottom, adv_px, ppem, nudge
     if mode in ("square", "proportional"):
         # bitmap centred in [0, advance]; 2px where the offset had to be nudged into int8
         ideal2 = core.as_term(adv_px) - core.as_term(w)  # twice the ideal offset
-        nudged_x = core.as_term(x_off) == 127
+        nudged_x = z3.And(core.as_term(x_off) == 127, ideal2 > 254)  # "had to be nudged": the ideal offset itself exceeds int8
         props["bitmap horizontally centred in its advance (±1px, 2 nudged)"] = z3.Or(
             absz(2 * core.as_term(x_off) - ideal2) <= z3.If(nudged_x, 4, 2),
             core.as_term(x_off) > 127)  # unrepresentable offsets are passed on unwrapped (fontTools rejects them)
@@ -159,7 +159,7 @@ def replay_metrics(inp):
         adv_px = BT._cbdt_bitmap_data(cfg, m, png).metrics.Advance  # what is stored, not what was computed on the way
     if abs(adv_px - A * s) > 1 + A * abs(h / F - s) + h / (2 * F) + 1e-9:
         bad["advance"] = {"pixel advance": adv_px, "font advance (hmtx)": A, "scaled to ppem": A * s}
-    if mode in ("square", "proportional") and m.x_offset <= 127 and abs(2 * m.x_offset - (adv_px - w)) > (4 if m.x_offset == 127 else 2):
+    if mode in ("square", "proportional") and m.x_offset <= 127 and abs(2 * m.x_offset - (adv_px - w)) > (4 if (m.x_offset == 127 and adv_px - w > 254) else 2):
         bad["x_offset"] = [m.x_offset, "expected about", (adv_px - w) / 2, "advance_px", adv_px, "bitmap width", w]
     if h > 255 or not (-128 <= m.y_offset <= 127):
         bad["accepted_out_of_range"] = [h, m.y_offset]
